@@ -403,6 +403,11 @@ def gen_body(rng, allow_finding, uni=False):
         keys += akeys
         if wi in (4, 5):
             keys.append("wrap_group" if wi == 4 else "wrap_subshell")
+    # `semicolon_brace` ends the function early: what follows it is a top-level group that RUNS when the text is sourced.  An array atom
+    # there would assign the pool variable `a` at source time (no statement filter_env could or should remove): give it a private name
+    sb = next((i for i, part in enumerate(parts) if part == BODY_ATOMS["semicolon_brace"]), None)
+    if sb is not None:
+        parts = parts[: sb + 1] + [part.replace("a=(", "arr9_=(").replace("${a[", "${arr9_[") for part in parts[sb + 1:]]
     return "\n".join(parts), keys
 
 
